@@ -1,6 +1,6 @@
 SPECIFICATION Spec
 CONSTANTS Devs <- AllDevs
           Worlds <- MCWorlds1
-          CfgSet <- MCCfgs
+          CfgSet <- MCCfgsDyn
 INVARIANTS TypeOK Canonical Resolvable ShardedIffRule SettingsSurvive CidFunctionOfEntries BasicLimit
 CHECK_DEADLOCK FALSE
